@@ -8,11 +8,11 @@ use std::mem::MaybeUninit;
 use std::panic::AssertUnwindSafe;
 use std::rc::Rc;
 
-use tevec::export::ndarray::Array1;
+use tevec::export::ndarray::{Array1, ArrayViewMut1};
 use tevec::prelude::{
     Cast, CollectTrustedToVec, GetLen, IsNone, Number, TError, TIter, TIterator, TResult, ToTrustIter,
     TryCollectTrustedToVec, UninitRefMut, UninitVec, Vec1, Vec1Collect, Vec1Create, Vec1OptCollect,
-    Vec1TryCollect, Vec1View, WriteTrustIter,
+    Vec1Mut, Vec1TryCollect, Vec1View, WriteTrustIter,
 };
 use vh::*;
 
@@ -694,6 +694,87 @@ fn main() {
                         c
                     });
                 }
+            }
+        }
+    }
+    // ============================================================ Vec1Mut: get_mut / apply_mut_with; sort_unstable_by
+    fn wrapped_deque(xs: &[i64], rot: usize) -> VecDeque<i64> {
+        let mut d: VecDeque<i64> = VecDeque::with_capacity(xs.len().max(1));
+        for _ in 0..rot { d.push_back(0) }
+        for _ in 0..rot { d.pop_front(); }
+        for x in xs { d.push_back(*x) }
+        d
+    }
+    let mlen = if thorough { 7 } else { 5 };
+    for len in 0..=mlen {
+        let xs: Vec<i64> = (0..len).map(|i| 3 * i as i64 - 4).collect();
+        let zx = coq_zlist(&xs);
+        let nt = if len == 0 { " nt=0" } else { "" };
+        for i in 0..=len + 1 {
+            let optc = |v: Option<i64>| vec![match v { Some(x) => Cell::Int(x as i128), None => Cell::Null }];
+            let term = || format!("(run_get_mut {} {})", zx, coq_nat(i));
+            let tg = |be: &str| format!("fn=get_mut be={} len={} inb={}{}", be, len, i < len, nt);
+            let ds = |be: &str| format!("fn=get_mut be={} xs={:?} i={}", be, xs, i);
+            em.case("exact", &tg("vec"), &ds("vec"), term, || { let mut v = xs.clone(); optc(Vec1Mut::get_mut(&mut v, i).map(|r| *r)) });
+            em.case("exact", &tg("deque"), &ds("deque"), term, || { let mut v = wrapped_deque(&xs, 2); optc(Vec1Mut::get_mut(&mut v, i).map(|r| *r)) });
+            em.case("exact", &tg("nd"), &ds("nd"), term, || { let mut v = Array1::from_vec(xs.clone()); optc(Vec1Mut::get_mut(&mut v, i).map(|r| *r)) });
+            em.case("exact", &tg("ndviewmut"), &ds("ndviewmut"), term, || { let mut a = Array1::from_vec(xs.clone()); let mut v: ArrayViewMut1<i64> = a.view_mut(); optc(Vec1Mut::get_mut(&mut v, i).map(|r| *r)) });
+        }
+        for m in 0..=mlen {
+            let ys: Vec<i64> = (0..m).map(|i| (i as i64 * 5 + 1) % 7).collect();
+            let term = || format!("(run_apply_mut_with {} {})", zx, coq_zlist(&ys));
+            let class = if m == len { "equal" } else { "mismatch" };
+            let tg = |be: &str| format!("fn=apply_mut_with be={} len={} other={} class={}{}", be, len, m, class, nt);
+            let ds = |be: &str| format!("fn=apply_mut_with be={} xs={:?} ys={:?}", be, xs, ys);
+            macro_rules! amw {
+                ($be:expr, $mk:expr, $items:expr) => {
+                    em.case("exact", &tg($be), &ds($be), term, || {
+                        let mut v = $mk;
+                        let mut log: Vec<(i64, i64)> = vec![];
+                        let r = guarded(AssertUnwindSafe(|| v.apply_mut_with(&ys, |a: &mut i64, o: i64| { log.push((*a, o)); *a = 10 * *a + o })));
+                        let mut c = vec![status_cell(r)];
+                        for (a, o) in &log { c.push(Cell::Int(*a as i128)); c.push(Cell::Int(*o as i128)); }
+                        c.push(Cell::Sep);
+                        let after: Vec<i64> = $items(v);
+                        c.extend(after.into_iter().map(|x| Cell::Int(x as i128)));
+                        c
+                    });
+                };
+            }
+            amw!("vec", xs.clone(), |v: Vec<i64>| v);
+            amw!("deque", wrapped_deque(&xs, 3), |v: VecDeque<i64>| v.items());
+            amw!("nd", Array1::from_vec(xs.clone()), |v: Array1<i64>| v.to_vec());
+        }
+    }
+    // every sequence over a 3-letter alphabet (many ties) up to length 5, both orders
+    let slen = if thorough { 7 } else { 5 };
+    for len in 0..=slen {
+        for code in 0..3usize.pow(len as u32) {
+            let xs: Vec<i64> = (0..len).map(|i| (code / 3usize.pow(i as u32) % 3) as i64 * 4 - 3).collect();
+            let zx = coq_zlist(&xs);
+            let nt = if len <= 1 { " nt=0" } else { "" };
+            for rev in [false, true] {
+                let term = || format!("(run_sort {} {})", coq_bool(rev), zx);
+                let split = !wrapped_deque(&xs, len / 2 + 1).as_slices().1.is_empty();
+                let tg = |be: &str| format!("fn=sort_unstable_by be={} len={} rev={} path={}{}", be, len, rev,
+                    if be == "deque_wrapped" && split { "copy_back" } else { "slice" }, nt);
+                let ds = |be: &str| format!("fn=sort_unstable_by be={} rev={} xs={:?}", be, rev, xs);
+                macro_rules! srt {
+                    ($be:expr, $ty:ty, $mk:expr, $items:expr) => {
+                        em.case("exact", &tg($be), &ds($be), term, || {
+                            let mut v: $ty = $mk;
+                            let r = guarded(AssertUnwindSafe(|| <$ty as Vec1<i64>>::sort_unstable_by(&mut v, |a: &i64, b: &i64| if rev { b.cmp(a) } else { a.cmp(b) })));
+                            let mut c = vec![status_cell(r)];
+                            let after: Vec<i64> = $items(v);
+                            c.extend(after.into_iter().map(|x| Cell::Int(x as i128)));
+                            c
+                        });
+                    };
+                }
+                srt!("vec", Vec<i64>, xs.clone(), |v: Vec<i64>| v);
+                srt!("nd", Array1<i64>, Array1::from_vec(xs.clone()), |v: Array1<i64>| v.to_vec());
+                srt!("deque_contig", VecDeque<i64>, wrapped_deque(&xs, 0), |v: VecDeque<i64>| v.items());
+                srt!("deque_wrapped", VecDeque<i64>, wrapped_deque(&xs, len / 2 + 1), |v: VecDeque<i64>| v.items());
             }
         }
     }
